@@ -31,8 +31,10 @@ void vrt_observe(std::uint64_t v);
 std::uint64_t vrt_alloc_live_blocks(void);
 std::uint64_t vrt_alloc_live_bytes(void);
 std::uint64_t vrt_alloc_peak_bytes(void);
-// Simulated threads (C19): swaps the contents of all thread_local globals.
-void vrt_switch(std::uint32_t thread);
+// Simulated threads (C19): runs fn(arg) as thread `thread` (0..2).  CBMC / generated C: the contents of all
+// thread_local globals are swapped around the call; native C++: fn runs on one of three real std::threads,
+// strictly one at a time.
+void vrt_run_on(std::uint32_t thread, void (*fn)(void*), void* arg);
 }
 
 #define VRT_CAT_(a, b) a##b
